@@ -284,6 +284,18 @@ theorem ultoa_atoul (x : Nat) (h : x < 18446744073709551616) :
   obtain ⟨r, hr, hm⟩ := ofULong_spec x h
   exact ⟨r, hr, hm, by rw [hm.view]; exact toU64_myatol_utoa x h⟩
 
+/-- `toInt()` / `toLong()` (`myatoi`/`myatol` on the text) of a String that reads: optional sign, the decimal digits of
+    ANY natural number `n` (also beyond 64 bits), then a tail that does not start with a digit (or nothing): the result is
+    `±n` reduced to the two's-complement range of `int` / `Long` — in particular `±n` itself whenever that is representable -/
+theorem toint_any_text {r : Rep} {s : Bytes} (h : Models r s) (n : Nat) (t : Bytes)
+    (ht : ∀ c, t.head? = some c → ¬ (48 ≤ c ∧ c ≤ 57)) :
+    (s = utoa n ++ t → myatoi r.view = wrap32 n ∧ myatol r.view = wrap64 n) ∧
+    (s = 45 :: (utoa n ++ t) → myatoi r.view = wrap32 (-n) ∧ myatol r.view = wrap64 (-n)) ∧
+    (s = 43 :: (utoa n ++ t) → myatoi r.view = wrap32 n ∧ myatol r.view = wrap64 n) := by
+  obtain ⟨a1, a2, a3, a4, a5, a6⟩ := atoi_tail n t ht
+  rw [h.view]
+  exact ⟨fun e => by rw [e]; exact ⟨a1, a4⟩, fun e => by rw [e]; exact ⟨a2, a5⟩, fun e => by rw [e]; exact ⟨a3, a6⟩⟩
+
 /-- the text written for a non-negative number reads back, digit by digit, as that number
     (the decimal-notation content of `myitoa`/`myltoa`/`%u`) -/
 theorem decimal_digits (n : Nat) :
@@ -497,5 +509,8 @@ example : splitDic [97, 61, 49, 44, 98, 61, 50, 44, 61, 120, 44, 99, 44, 97, 61,
 example : DicEntry [61] [97, 61, 51] [97] [51] :=
   ⟨by simp, rfl, fun i hi => by have : i = 0 := by simpa using hi
                                 subst this; decide⟩
+/-- `"-12x".toInt()` = −12; `"4294967297".toInt()` wraps to 1 -/
+example : utoa 12 ++ [120] = [49, 50, 120] ∧ myatoi [45, 49, 50, 120] = -12 ∧
+    myatoi [52, 50, 57, 52, 57, 54, 55, 50, 57, 55] = 1 ∧ wrap32 4294967297 = 1 := by decide +kernel
 
 end C03
